@@ -4,7 +4,7 @@ package quic
 //vx:entry Harness_C16_generator
 //vx:stub github.com/refraction-networking/uquic.statelessResetter.GetStatelessResetToken = vxGenResetToken
 //vx:param quick steps=4
-//vx:param thorough steps=5
+//vx:param thorough steps=4
 //vx:reach Harness_C16_generator C16.gen.issued C16.gen.retired C16.gen.retired-zero C16.gen.expired C16.gen.protocol-violation C16.gen.closed
 
 import (
